@@ -1,16 +1,28 @@
 """C19 - DCC algorithms respect TS 102 687 state, rate and duty-cycle limits.
 
-Decides: internal agreement of the Annex A tables (contiguous bands in state order, rate x T_off = 1000), which table the
-constructor selects for every assumed T_on, the single-step state move and output row of the NEW state, the CBR range
-check, the LIMERIC update as a formula identity (polynomial normal form of equations 1-5 incl. the clamps), that every
-normal exit returns the freshly stored delta, the gate equations B.1/B.2 as formula identities with clamps [25 ms, 1 s],
-admit only when open and after storing both times, rescale only while closed, delta stored on every normal exit.
-Does not decide convergence within four evaluations (follows from one-step + band agreement only informally) nor
-floating-point rounding.
+Decides: internal agreement of the Annex A tables (tables: state order complete and ascending, rows in that order, bands
+non-empty, contiguous, from 0 to above 1, rate x T_off = 1000, rates not increasing with load; Table A.2 installed for
+every assumed T_on <= 500 us, A.1 above, the table for shorter packets allowing the higher rates); the single-step move
+(one-step: one store to the state per evaluation, new index = old + k with k in {-1, 0, +1}, each k only when the target
+index lies on that side, output state / rate / T_off those of the state JUST stored; band search in table order with
+cbr_min <= cbr < cbr_max, falling back to the last state); the CBR range check (cbr-range: reactive and adaptive state
+is updated only after 0 <= CBR <= 1 was established, else ValueError); the LIMERIC update path by path as formula
+identities in entry-state terms (limeric: eq. 1-2 smoothing with the global pair when both are available, else the
+local pair; eq. 3 offset = min(beta*(target - CBR'), delta_up_max) on the positive side, max(.., delta_down_max)
+otherwise, on the freshly smoothed CBR, every path deciding that sign; eq. 4: the FIRST value stored into delta is
+(1 - alpha)*delta + offset; every normal exit returns the delta stored in this evaluation); the final clamp path by
+path (delta-clamp: the LAST value stored into delta is bounded above by delta_max and below by delta_min, through
+min / max nesting or a branch condition); the gate keeper (gate: limits [25 ms, 1 s]; t_go = reference + clamp(interval)
+with the unclamped interval equal to B.1 at admission / B.2 at a delta update; rescale only while closed with both
+times set; new delta stored on every normal exit, non-positive delta rejected before any store; admit only under
+is_open(t) and t_on > 0, storing t_pg and t_go; a rejected packet changes nothing; is_open <=> no opening scheduled or
+t >= t_go - epsilon, epsilon <= 1e-6).
+Does not decide convergence within four evaluations (follows from one-step + band agreement only informally),
+floating-point rounding, nor the Annex A numbers themselves (internal agreement is checked instead).
 
-The small, loop-free methods (DccReactive.__init__/update, DccAdaptive.update, GateKeeper.*) are decided on the set of
-their symbolic paths (`sym_paths`): every path carries its branch conditions and the values stored, both written in
-terms of the state at entry, so a rule never depends on how the source spells locals, branches or operand order.
+The small, loop-free methods are decided on the set of their symbolic paths (`sym_paths`): every path carries its branch
+conditions and the values stored, both in terms of the state at entry, so no rule depends on how the source spells
+locals, branches or operand order.
 """
 from __future__ import annotations
 
